@@ -41,6 +41,10 @@ def check(run):
     # directed sequences on ONE server: what an earlier connection established (a TLS session, a cached client) must not carry over
     for sv in range(nsrv):
         calls += [{"srv": sv, "kind": k} for k in ("other", "own0", "other", "own0-prefixed", "empty", "other", "not-b64", "other")]
+    # the C2 URL's scheme spelled HTTPS:// or Https:// (schemes are case-insensitive): the pin applies all the same
+    for sv in range(nsrv):
+        for kd in ("own0", "other", "not-b64", "empty"):
+            calls.append({"srv": sv, "kind": kd, "scheme": ["HTTPS", "Https"][sv % 2]})
     # overlapping calls: a second call runs to completion while the first is between configuring its client and connecting
     for sv in range(nsrv):
         for outer, inner in (("other", "own0"), ("empty", "own0"), ("own0", "other"), ("own0", "empty"), ("other", "other")):
@@ -50,7 +54,8 @@ def check(run):
     for g, imp in impostors.items():
         calls += [{"srv": g, "kind": "own0"}, {"srv": imp, "kind": "pin-of", "of": g}, {"srv": imp, "kind": "own0"}, {"srv": g, "kind": "pin-of", "of": imp},
                   {"srv": g, "kind": "own0-prefixed"}, {"srv": imp, "kind": "pin-of", "of": g}]
-    inputs = [dict({"i": k, "srv": c["srv"], "kind": c["kind"]}, **dict(({"nested": dict(c["nested"], i=100000 + k)} if "nested" in c else {}), **({"of": c["of"]} if "of" in c else {}))) for k, c in enumerate(calls)]
+    inputs = [dict({"i": k, "srv": c["srv"], "kind": c["kind"]}, **dict(({"nested": dict(c["nested"], i=100000 + k)} if "nested" in c else {}), **({"of": c["of"]} if "of" in c else {}),
+                          **({"scheme": c["scheme"]} if "scheme" in c else {}))) for k, c in enumerate(calls)]
     res, err = vlib.run_drv(drv, "pin", [header] + inputs, args=[d], env=env, timeout=120)
     if err or not res or len(res) != len(inputs) + 1:
         run.oblige("pin driver ran all calls", False, "%s (%d results)" % (err, len(res or [])))
